@@ -133,3 +133,18 @@ def install():
         return orig(cls, name, value)
 
     Configuration.type_check_timestamp_from_string = classmethod(_stub)
+
+    # Cut (logging): the transaction constructors compare exchange-supplied fiat/crypto figures with the derived ones
+    # only to decide whether to LOG a warning.  On symbolic operands that comparison is a non-linear query per optional
+    # field and doubles the number of paths without any effect on the results, so it is answered "equal" (no warning).
+    from rp2.rp2_decimal import RP2Decimal  # pylint: disable=import-outside-toplevel
+
+    orig_eq = RP2Decimal.is_equal_within_precision.__func__
+
+    def _iewp(cls, first, second, precision_mask):
+        caller = sys._getframe(1).f_globals.get("__name__")
+        if caller in ("rp2.in_transaction", "rp2.out_transaction") and not (first.is_concrete and second.is_concrete):
+            return True
+        return orig_eq(cls, first, second, precision_mask)
+
+    RP2Decimal.is_equal_within_precision = classmethod(_iewp)
